@@ -293,8 +293,12 @@ impl Prop for Mutated {
                     cs.remove(pos);
                 }
                 1 => {
-                    for ch in u.choose(HOSTILE)?.chars() {
-                        cs.insert(pos, ch);
+                    if u.ratio(1, 6)? {
+                        cs.insert(pos, c11::random_non_ascii(u)?);
+                    } else {
+                        for ch in u.choose(HOSTILE)?.chars() {
+                            cs.insert(pos, ch);
+                        }
                     }
                 }
                 2 if !cs.is_empty() => cs[pos] = u.choose(HOSTILE)?.chars().next().unwrap(),
